@@ -31,7 +31,7 @@ PID = "C46"
 LEVEL = "proof"
 LEAN = ["SaVerif.Props.C46"]
 META = {
-    "text": "Lean theorems over the session/database transition system for ALL histories: reading an expired attribute returns the row's current value and pending changes of the same object are kept (read_expired_eq_db); after expire / expire_all / refresh / commit with expire_on_commit / rollback / a populate_existing query that matched the row, the next read returns the database value (fresh_after_*, read_of_fresh); a pending value survives every operation that does not expire, refresh, repopulate, flush or roll back that attribute (pending_survives); and, by induction over arbitrary operation sequences without external writes, every loaded unmodified attribute equals the database (coherent_run), coherence being re-established by expire_all/commit/rollback after any external interference. The model is tied to orm/state.py, session.py, loading.py by a differential run on a real Session over a SQLite file with a second writer connection; the property itself is re-checked by an independent reference that tracks the truth and the invalidations.",
+    "text": "Lean theorems over the session/database transition system for ALL histories: reading an expired attribute returns the row's current value and pending changes of the same object are kept (read_expired_eq_db); after expire / expire_all / refresh / commit with expire_on_commit / rollback / a populate_existing query that matched the row, the next read returns the database value (fresh_after_*, read_of_fresh); a pending value survives every operation that does not expire, refresh, repopulate, flush or roll back that attribute (pending_survives); and, by induction over arbitrary operation sequences without external writes, every loaded unmodified attribute equals the database (coh_run; user-level corollary read_coherent), coherence being re-established by expire_all/commit/rollback after any external interference (coh_after_expireAll, coh_after_rollback, coh_after_commit_eoc). The model is tied to orm/state.py, session.py, loading.py by a differential run on a real Session over a SQLite file with a second writer connection; the property itself is re-checked by an independent reference that tracks the truth and the invalidations.",
     "note": "Trusted: Lean kernel; correspondence harness (sampling + exhaustive short sequences); SQLite (no read snapshot is held by pysqlite, so 'current for the transaction' = latest commit + own flushed changes; snapshot-isolation backends are not modelled). Relationship / collection / deferred attributes and refresh with_for_update are not modelled (column attributes only).",
     "technique": "Lean 4 invariant proofs over a session/database LTS + differential correspondence on SQLite + independent reference oracle",
     "design_ref": "DESIGN.md §3 C30–C48 (C46)",
@@ -499,6 +499,18 @@ def unjson(c):
     return dict(c, ops=ops)
 
 
+def _budget_exhausted(ctx, t0, n):
+    """a broken tree can make every history slow (leaks, lock waits): stop generating in time
+    and judge what was run"""
+    import time
+
+    limit = 70 if ctx.tier == "quick" else 650
+    if time.time() - t0 > limit:
+        ctx.assumptions.append("time budget reached after %d cases; remaining generated cases not run" % n)
+        return True
+    return False
+
+
 def run(ctx, deep=False):
     ctx.rule = (
         "histories of external update/delete/insert (second connection, fresh values) interleaved with read/set/expire(obj[,attrs])/expire_all/"
@@ -507,8 +519,13 @@ def run(ctx, deep=False):
         "non-trivial = at least one attribute read returned a value"
     )
     ctx.trusted.append("SQLite file database: no read snapshot (pysqlite), writers serialised; the other connection fails fast on a lock and the op is skipped on both sides")
+    import time
+
+    t0 = time.time()
     cases, impl_out, reqs = [], [], []
     for case in gen_cases(ctx, deep):
+        if _budget_exhausted(ctx, t0, len(cases)):
+            break
         line, problems = run_history(case)
         jc = jsonable(case)
         ctx.case((case["af"], case["eoc"], jc["ops"]), nontrivial=(";v" in line or line.startswith("v")))
